@@ -1,10 +1,40 @@
-/- line-protocol handlers for the C17 Cmap subsetting model -/
-import FontVerif.Model.Base
+/- line-protocol handlers for the C17 cmap subsetting model (Model/SubsetCmap.lean)
+
+requests:
+  c17.cmap4  <language> <cp gid>…      `Cmap4::serialize` on a plain list (`-` = empty)
+  c17.cmap12 <language> <cp gid>…      `Cmap12::serialize`
+  c17.ranges <cp gid>…                 `to_ranges`: the (start end delta) triples
+responses: `ok <hex>` | `err:<flag>` | `trap`
+-/
+import FontVerif.Model.SubsetCmap
 namespace FontVerif.Drv.C17Cmap
-open FontVerif
+open FontVerif FontVerif.SubsetCmap
+
+def natList (ts : List String) : Option (List Nat) :=
+  if ts = ["-"] then some [] else parseNats? ts
+
+def pairs : List Nat → Option (List (Nat × Nat))
+  | [] => some []
+  | [_] => none
+  | a :: b :: rest => (pairs rest).map ((a, b) :: ·)
+
+def fmtOut : Out (List Nat) → String
+  | .ok b => s!"ok {toHex b}"
+  | .err e => s!"err:{e}"
+  | .trap => "trap"
 
 def handle (cmd : String) (args : List String) : Option String :=
   match cmd with
+  | "c17.cmap4" => do
+    let lang :: rest := args | none
+    some (fmtOut (serialize4 (← parseNat? lang) (← pairs (← natList rest))))
+  | "c17.cmap12" => do
+    let lang :: rest := args | none
+    some (fmtOut (serialize12 (← parseNat? lang) (← pairs (← natList rest))))
+  | "c17.ranges" => do
+    match toRanges (← pairs (← natList args)) with
+    | none => some "trap"
+    | some rs => some (" ".intercalate (rs.map (fun r => s!"{r.1}:{r.2.1}:{r.2.2}")))
   | _ => none
 
 end FontVerif.Drv.C17Cmap
